@@ -8,10 +8,11 @@ MANIFEST = dict(
               "check_baseline_ops.rs and runner.rs:330-392, tied by library-level differential execution of the extracted model against the "
               "re-exported functions and by replaying edit/update/check histories on the real CLI over a small universe",
     text="Theorems C09_roundtrip, C09_unrecorded_always_fails, C09_new_never_drops, C09_modes_preserve_other_kind, C09_update_idempotent, "
-         "C09_history_inv hold for every result list, baseline, flag set and operation history (unbounded); the classes that the code violates "
-         "carry _refuted witnesses and _modulo_known statements. The tie is a seeded differential run of apply_baseline_comparison / "
+         "C09_history_inv, C09_update_run_not_truncated / C09_update_under_fail_fast_same_file (an updating run ignores fail-fast), C09_path_without_key_always_fails / "
+         "C09_baseline_keys_stay_valid(_history) (paths that are not valid UTF-8 have no key) hold for every result list, baseline, flag set and operation history (unbounded); the one class the code "
+         "violates (a backslash in a file name is a separator for the key: K09_backslash_name) carries C09_key_injective_refuted and C09_key_injective_modulo_known. The tie is a seeded differential run of apply_baseline_comparison / "
          "update_baseline_from_results / check_baseline_ratchet / tighten_baseline / determine_exit_code against the extracted model, plus "
-         "CLI history replay (all histories of length <= 3 over a 25-operation alphabet in thorough, sampled to length 10) comparing reported "
+         "CLI history replay (all histories of length <= 3 over a 30-operation alphabet in thorough, sampled to length 10) comparing reported "
          "statuses, exit status and the baseline file with check_step, and the C09 oracles evaluated on the observations.",
     note="Trusted: Coq kernel, extraction, harness sgv-check, the python evaluator of the 5-file universe (cross-checked against a plain run in "
          "every state), serde_json (de)serialisation of the baseline, SHA-256 as an oracle column. The scan / threshold / structure stages "
@@ -23,10 +24,10 @@ def gen_histories(ctx):
     rng = ctx.rng
     if ctx.tier == "quick":
         hs = [rand_history(rng, 10) for _ in range(170)]
-        ex = list(exhaustive_histories(2, start_states=("oo---",)))
+        ex = list(exhaustive_histories(2, start_states=("oo---o",)))      # ./b.rs and ./B.rs both over the limit
         rng.shuffle(ex)
         return hs + ex[:120], {"sampled_len<=10": len(hs), "exhaustive_len<=2_subsample": 120}
-    ex = list(exhaustive_histories(3, start_states=("oo---",)))
+    ex = list(exhaustive_histories(3, start_states=("oo---o",)))
     hs = [rand_history(rng, 10) for _ in range(1500)]
     return ex + hs, {"exhaustive_len<=3": len(ex), "sampled_len<=10": len(hs)}
 
@@ -41,33 +42,36 @@ def run(ctx):
     depth = [bool(c.get("depth0")) for c in corpus] + [i % 5 == 4 for i in range(len(hists))]
     hp = history_phase(ctx, bins, model, allh, depth_flags=depth)
     ee = error_entry_phase(ctx, bins, model, ctx.tier == "quick")
+    nu = nonutf8_phase(ctx, bins, model)
+    bs = backslash_phase(ctx, bins, model)
     xcheck_model(ctx, model, 40 if ctx.tier == "quick" else 300)
-    ctx.cov["evaluations"] = lib["cases"] + hp["steps"] + ee["traces"]
+    ctx.cov["evaluations"] = lib["cases"] + hp["steps"] + ee["traces"] + nu["steps"] + bs["steps"]
     ctx.cov["distinct_nontrivial"] = hp["nontrivial"]
-    ctx.cov["traces_validated_against_impl"] = hp["steps"] + ee["traces"] - len(hp["mismatches"]) - len(ee["mismatches"])
-    ctx.cov["rule"] = ("library level: seeded result lists (19 path spellings incl. backslashes, empty, non-ASCII; all categories and statuses) x baselines through "
+    ctx.cov["traces_validated_against_impl"] = hp["steps"] + ee["traces"] + nu["steps"] + bs["steps"] - len(hp["mismatches"]) - len(ee["mismatches"]) - len(nu["mismatches"]) - len(bs["mismatches"])
+    ctx.cov["rule"] = ("library level: seeded result lists (49 path spellings incl. backslashes, empty, non-ASCII, pairs differing in letter case only, two paths that are not valid UTF-8 with one lossy form and that lossy form as a key; all categories and statuses) x baselines through "
                        "apply / update (4 modes, with and without an existing baseline) / ratchet / tighten / exit, implementation vs extracted model and vs one-line specs; "
-                       "CLI level: histories of edits, --update-baseline <mode> (with/without --baseline) and checks (flags, [baseline] ratchet, [check] fail_fast, --files) over 5 files / 3 "
-                       "directories with sizes under/warn/over, observables statuses + exit + baseline file vs check_step; --files lists with an unreadable entry (I/O error) before "
-                       "recorded / unrecorded violations in every order under fail-fast. "
+                       "CLI level: histories of edits, --update-baseline <mode> (with/without --baseline, with/without fail-fast by flag or config) and checks (flags, [baseline] ratchet, [check] fail_fast, --files) over 6 files "
+                       "(./b.rs and ./B.rs differ in letter case only) / 3 directories with sizes under/warn/over, with the tool's own state files (.sloc-guard/, the default baseline file, a temporary file of a killed save) lying in the root,  observables statuses + exit + baseline file vs check_step; --files lists with an unreadable entry (I/O error) before "
+                       "recorded / unrecorded violations in every order under fail-fast; non-UTF-8 file names sharing a lossy form (update, check, legacy file with the lossy key); a file name containing a backslash (known finding). "
                        "non-trivial = histories with at least one update, one edit and a non-empty baseline on disk at some step")
     ctx.cov["input_distribution"] = {"library": lib["dist"], "histories": dict(dist, corpus=len(corpus)), "cli_steps": hp["steps"], "cli_spawns": hp["spawns"],
                                      "fail_fast_steps": hp["ff_traces"], "library_nontrivial": lib["nontrivial"],
-                                     "fail_fast_traces_with_unreadable_entry": ee["traces"]}
-    ctx.cov["model_vs_impl_mismatches"] = len(lib["mismatches"]) + len(hp["mismatches"]) + len(ee["mismatches"])
+                                     "fail_fast_traces_with_unreadable_entry": ee["traces"], "steps_with_non_utf8_paths": nu["steps"], "steps_backslash_name": bs["steps"]}
+    ctx.cov["model_vs_impl_mismatches"] = len(lib["mismatches"]) + len(hp["mismatches"]) + len(ee["mismatches"]) + len(nu["mismatches"]) + len(bs["mismatches"])
     for s in lib["sample"][:1] + hp["sample"][:2]:
         ctx.sample(s)
     ctx.cov["trusted_base"] = TRUSTED_COMMON + ["python evaluator of the 5-file universe (compared with a plain `check --format json` run in every visited state)",
                                                 "serde_json round trip of the baseline file; SHA-256 of file contents enters the model as data"]
     ctx.assumptions = ["the pre-baseline result list is produced by the scan/threshold/structure stages (C05-C07); C09 starts from it",
-                       "paths are valid UTF-8 (to_string_lossy is the identity)"]
+                       "a baseline file holds Unicode strings (JSON): no key contains a unit that stands for a raw byte; a path that is not valid UTF-8 has no key (fix D55)",
+                       "baseline keys are relative to the working directory of the run; one baseline file is used from one working directory"]
     # ---- verdicts
     fails = [f for f in lib["oracle_failures"] if f["prop"] == "C09"]
     for f in fails[:3]:
         ctx.violation({"kind": "property-oracle", "what": f["what"], "first_mismatch": {"case": f["case"]}})
-    n = report_findings(ctx, "C09", hp["findings"] + ee["findings"])
+    n = report_findings(ctx, "C09", hp["findings"] + ee["findings"] + nu["findings"] + bs["findings"])
     if not fails and not n:
-        tie = lib["mismatches"] + hp["mismatches"] + hp["structural"] + ee["mismatches"]
+        tie = lib["mismatches"] + hp["mismatches"] + hp["structural"] + ee["mismatches"] + nu["mismatches"] + bs["mismatches"]
         report_tie(ctx, "C09", "sgv-check / sloc-guard check == extracted Check.Baseline (apply, update, check_step)", tie, proofs_ok, lib["errs"])
 
 
